@@ -10,7 +10,7 @@ BIN="$1"; SCALE="${2:-0.03}"
 LOG="$(mktemp /dev/shm/hsim-strace.XXXXXX)"
 trap 'rm -f "$LOG" "$LOG".*' EXIT
 if ! command -v strace >/dev/null; then echo "strace cross-check: strace not available, skipped"; exit 0; fi
-strace -f -qq -o "$LOG" -e trace=network,openat,open,creat,mkdir,mkdirat,rename,renameat,renameat2,unlink,unlinkat,rmdir,symlink,symlinkat,link,linkat \
+strace -f -qq -o "$LOG" -e trace=network,openat,open,creat,mkdir,mkdirat,rename,renameat,renameat2,unlink,unlinkat,rmdir,symlink,symlinkat,link,linkat,execve,truncate,chmod,fchmodat \
   "$BIN" check --prop C10 --tier quick --scale "$SCALE" --workers 4 --no-evidence --max-minimise 0 >/dev/null 2>&1
 rc=$?
 if [ $rc -ne 0 ]; then echo "HARNESS-ERROR: strace cross-check: the traced C10 run exited $rc"; exit 2; fi
@@ -18,9 +18,12 @@ net=$(grep -E ' (socket|connect|bind|listen|sendto|sendmsg|sendmmsg|accept|accep
 writes=$(grep -E '(openat|open|creat)\(' "$LOG" | grep -E 'O_WRONLY|O_RDWR|O_CREAT|creat\(' | grep -v -E '"/dev/shm/harper-verif\.|"/proc/self/cwd/w|"w/|"/verif/(evidence|replays)|"/dev/null|"/dev/shm/hsim-|= -1 ' | head -5)
 # (removals relative to a directory descriptor are the harness's own remove_dir_all of a finished run's world)
 others=$(grep -E ' (mkdir|mkdirat|rename|renameat|renameat2|unlink|unlinkat|rmdir|symlink|symlinkat|link|linkat)\(' "$LOG" | grep -v -E ' unlinkat\([0-9]+, ' | grep -v -E '/dev/shm/harper-verif\.|/proc/self/cwd/w|"w/|"w"|"[0-9]+"|/verif/(evidence|replays)|= -1 ' | head -5)
+# (the only programs ever started are the simulator's own worker processes)
+execs=$(grep -E " execve\\(" "$LOG" | grep -v -F "\"$BIN\"" | grep -v -F "\"/proc/self/exe\", [\"hsim\", \"worker\"]" | grep -v "= -1 " | head -5)
+meta=$(grep -E ' (truncate|chmod|fchmodat)\(' "$LOG" | grep -v -E '/dev/shm/harper-verif\.|/proc/self/cwd/w|"w/|= -1 ' | head -5)
 n=$(wc -l < "$LOG")
-if [ -n "$net$writes$others" ]; then
-  echo "HARNESS-ERROR: strace cross-check: system calls that the libc seam did not account for:"; echo "$net"; echo "$writes"; echo "$others"; exit 2
+if [ -n "$net$writes$others$execs$meta" ]; then
+  echo "HARNESS-ERROR: strace cross-check: system calls that the libc seam did not account for:"; echo "$net"; echo "$writes"; echo "$others"; echo "$execs"; echo "$meta"; exit 2
 fi
-echo "strace cross-check: $n traced system calls of the selected classes, no network call, no write outside the scratch world"
+echo "strace cross-check: $n traced system calls of the selected classes, no network call, no write outside the scratch world, no program started"
 exit 0
